@@ -251,3 +251,114 @@ class jumping_clocks:
         for n, f in self.saved.items():
             setattr(self.time, n, f)
         return False
+
+
+# ------------------------------------------------------------------ unusual but valid Python types
+import numbers as _numbers
+
+
+class I64(_numbers.Integral):
+    """A numpy.int64-like scalar: a registered numbers.Integral that is NOT a subclass of int (so it has
+    no to_bytes(), is no dict key of type int, fails isinstance(x, int)) but converts with int() and
+    __index__ and computes like an int, returning its own type."""
+    __slots__ = ('v',)
+
+    def __init__(self, v):
+        self.v = int(v)
+
+    def __int__(self):
+        return self.v
+    __index__ = __trunc__ = __floor__ = __ceil__ = __int__
+
+    def __round__(self, n=None):
+        return I64(round(self.v, n)) if n is not None else self.v
+
+    def __float__(self):
+        return float(self.v)
+
+    def __bool__(self):
+        return bool(self.v)
+
+    def __hash__(self):
+        return hash(self.v)
+
+    def __repr__(self):
+        return f'I64({self.v})'
+
+    def __str__(self):
+        return str(self.v)
+
+    def __format__(self, spec):
+        return format(self.v, spec)
+
+    def __eq__(self, o):
+        return self.v == (o.v if isinstance(o, I64) else o)
+
+    def __lt__(self, o):
+        return self.v < (o.v if isinstance(o, I64) else o)
+
+    def __le__(self, o):
+        return self.v <= (o.v if isinstance(o, I64) else o)
+
+    def __gt__(self, o):
+        return self.v > (o.v if isinstance(o, I64) else o)
+
+    def __ge__(self, o):
+        return self.v >= (o.v if isinstance(o, I64) else o)
+
+    def __neg__(self):
+        return I64(-self.v)
+
+    def __pos__(self):
+        return self
+
+    def __abs__(self):
+        return I64(abs(self.v))
+
+    def __invert__(self):
+        return I64(~self.v)
+
+    def __truediv__(self, o):
+        return self.v / (o.v if isinstance(o, I64) else o)
+
+    def __rtruediv__(self, o):
+        return o / self.v
+
+    def __pow__(self, o, m=None):
+        return I64(pow(self.v, int(o), m))
+
+    def __rpow__(self, o):
+        return o ** self.v
+
+
+def _binop(name):
+    def f(self, o):
+        if isinstance(o, I64):
+            o = o.v
+        if not isinstance(o, int):
+            return NotImplemented
+        return I64(getattr(int, name)(self.v, o))
+    return f
+
+
+for _n in ('add', 'sub', 'mul', 'floordiv', 'mod', 'lshift', 'rshift', 'and', 'xor', 'or'):
+    setattr(I64, f'__{_n}__', _binop(f'__{_n}__'))
+    setattr(I64, f'__r{_n}__', _binop(f'__r{_n}__'))
+I64.__abstractmethods__ = frozenset()
+
+
+def exotic_ints(v):
+    """The valid integer v in other clothes: bool where it fits, an int subclass, an IntEnum member, I64."""
+    import enum
+
+    class MyInt(int):
+        pass
+    out = [MyInt(v), I64(v)]
+    if v in (0, 1):
+        out.append(bool(v))
+    try:
+        out.append(enum.IntEnum('E', {'X': v}).X)
+    except Exception:
+        pass
+    return out
+
